@@ -24,6 +24,7 @@ class Spec(c01.Spec):
         {'label': 'well-formed-and-wide', 'family': 'wide'},
         {'label': 'thread-start-fails', 'family': 'well',
          'start_fault': True},
+        {'label': 'keyboard-interrupt', 'family': 'well', 'interrupt': True},
     ]
     rule = c01.Spec.rule.replace('acyclic hard/soft graph',
                                  'hard/soft graph (acyclic or cyclic)') + \
@@ -37,7 +38,8 @@ class Spec(c01.Spec):
                                   cyclic=fam.get('cyclic', False),
                                   init_env=fam.get('init_env', False),
                                   calls=fam.get('calls', 1),
-                                  start_fault=fam.get('start_fault', False))
+                                  start_fault=fam.get('start_fault', False),
+                                  interrupt=fam.get('interrupt', False))
 
     def oracle(self, scn, res):
         return sched.oracle_c03(scn, res)
